@@ -1,5 +1,6 @@
 """Generate + verify one unit, with hint-dropping refinement."""
 import os
+import re
 import time
 
 from .gen import UnitGen, roundtrip
@@ -48,7 +49,10 @@ def run_unit(unit, repo=REPO, rlimit=None, threads=8, canary=None, suffix='', ma
         if post:
             post(g)
         text = g.text()
-        path = os.path.join(GEN, '%s%s.rs' % (unit, suffix))
+        # one file per process: several checks may run side by side (they would otherwise overwrite each other's
+        # generated text while Verus is reading it); kept only for the developer loop (VERIF_KEEP_GEN)
+        keep = bool(os.environ.get('VERIF_KEEP_GEN'))
+        path = os.path.join(GEN, '%s%s%s.rs' % (unit, suffix, '' if keep else '_p%d' % os.getpid()))
         with open(path, 'w') as f:
             f.write(text)
         r.gen_path = path
@@ -60,7 +64,12 @@ def run_unit(unit, repo=REPO, rlimit=None, threads=8, canary=None, suffix='', ma
             r.wall = time.time() - t0
             return r
         vr = verus.run_verus(path, rlimit=rl, threads=threads, timeout=timeout)
-        r.runs.append(dict(cmd=vr['cmd'], rc=vr['rc'], wall=vr['wall']))
+        if not keep:
+            try:
+                os.remove(path)
+            except OSError:
+                pass
+        r.runs.append(dict(cmd=re.sub(r'_p\d+\.rs', '.rs', vr['cmd']), rc=vr['rc'], wall=vr['wall']))
         r.funcs = verus.function_results(vr['result'])
         fails, und = verus.classify(vr['diags'], g)
         if vr['rc'] != 0 and not fails and not und:
